@@ -69,6 +69,15 @@ func (c *Ctx) collectArm(cc *ast.CaseClause) *armFacts {
 			af.width = c.L.Sizes.Sizeof(tv.Type)
 		}
 	}
+	visited := map[*FuncUnit]bool{}
+	for _, st := range cc.Body {
+		c.collectArmInto(af, st, 0, visited)
+	}
+	return af
+}
+
+func (c *Ctx) collectArmInto(af *armFacts, st ast.Node, depth int, visited map[*FuncUnit]bool) {
+	info := c.m.Info
 	var stack []ast.Node
 	cst := func(e ast.Expr) (string, bool) {
 		if tv, ok := info.Types[e]; ok && tv.Value != nil && tv.Value.Kind() == constant.Int {
@@ -76,7 +85,7 @@ func (c *Ctx) collectArm(cc *ast.CaseClause) *armFacts {
 		}
 		return "", false
 	}
-	for _, st := range cc.Body {
+	{
 		ast.Inspect(st, func(n ast.Node) bool {
 			if n == nil {
 				stack = stack[:len(stack)-1]
@@ -88,6 +97,12 @@ func (c *Ctx) collectArm(cc *ast.CaseClause) *armFacts {
 			}
 			switch x := n.(type) {
 			case *ast.CallExpr:
+				// the arm may delegate to a helper of the library (sortableFloat32(k)): its body is
+				// part of the arm
+				if cu := c.m.calleeUnit(x); cu != nil && cu.Lit == nil && cu.Body != nil && depth < 2 && !visited[cu] && !isConversion(info, x) {
+					visited[cu] = true
+					c.collectArmInto(af, cu.Body, depth+1, visited)
+				}
 				if isBuiltinCall(info, x, "make") && len(x.Args) == 2 {
 					if s, ok := cst(x.Args[1]); ok {
 						var v int64
@@ -98,7 +113,20 @@ func (c *Ctx) collectArm(cc *ast.CaseClause) *armFacts {
 				if sel, ok := x.Fun.(*ast.SelectorExpr); ok {
 					if s2, ok := sel.X.(*ast.SelectorExpr); ok {
 						if id, ok := s2.X.(*ast.Ident); ok && id.Name == "binary" {
-							af.binCalls = append(af.binCalls, s2.Sel.Name+"."+sel.Sel.Name)
+							name := sel.Sel.Name
+							// AppendUintN(make([]byte, 0, C), v) builds the same N/8 bytes as
+							// make([]byte, N/8) + PutUintN
+							if strings.HasPrefix(name, "AppendUint") && len(x.Args) == 2 {
+								if mk, ok := ast.Unparen(x.Args[0]).(*ast.CallExpr); ok && isBuiltinCall(info, mk, "make") && len(mk.Args) == 3 {
+									if l, ok := cst(mk.Args[1]); ok && l == "0" {
+										var bits int64
+										fmt.Sscan(strings.TrimPrefix(name, "AppendUint"), &bits)
+										af.makeLens = append(af.makeLens, bits/8)
+										name = "PutUint" + strings.TrimPrefix(name, "AppendUint")
+									}
+								}
+							}
+							af.binCalls = append(af.binCalls, s2.Sel.Name+"."+name)
 						}
 					}
 				}
@@ -134,6 +162,17 @@ func (c *Ctx) collectArm(cc *ast.CaseClause) *armFacts {
 						}
 					}
 				}
+			case *ast.ReturnStmt:
+				// in a helper the code is returned instead of assigned: return C / return i + C
+				if depth > 0 && len(x.Results) == 1 {
+					if s, ok := cst(x.Results[0]); ok {
+						af.assigned = append(af.assigned, s)
+					} else if be, ok := ast.Unparen(x.Results[0]).(*ast.BinaryExpr); ok && (be.Op == token.ADD || be.Op == token.SUB) {
+						if s, ok := cst(be.Y); ok {
+							af.addConsts = append(af.addConsts, s)
+						}
+					}
+				}
 			case *ast.AssignStmt:
 				if len(x.Lhs) == 1 && len(x.Rhs) == 1 {
 					if s, ok := cst(x.Rhs[0]); ok {
@@ -149,7 +188,6 @@ func (c *Ctx) collectArm(cc *ast.CaseClause) *armFacts {
 			return true
 		})
 	}
-	return af
 }
 
 // typeSwitchOn finds the type switch of a codec method and its arms.
